@@ -28,13 +28,16 @@ def add_schemes(
 
 
 def find_pyproject_toml_config() -> Path | None:
-    """Find the pyproject.toml file."""
-    from black.files import find_pyproject_toml
-
-    path = find_pyproject_toml((str(Path.cwd()),))
-    if path is None:
-        return None
-    return Path(path)
+    """Find the pyproject.toml file in the current working
+    directory or the closest parent directory."""
+    # Note that black's find_pyproject_toml only finds the file if the
+    # directory is the root of a repository or the file has a [tool.black] section
+    cwd = Path.cwd()
+    for directory in (cwd, *cwd.parents):
+        path = directory / "pyproject.toml"
+        if path.is_file():
+            return path
+    return None
 
 
 def read_config(path: Path | None) -> dict[str, Any]:
